@@ -166,6 +166,20 @@ Proof.
   intros. unfold wm_raw_chunk_seek. apply N.eqb_neq in H. rewrite H. reflexivity.
 Qed.
 
+Lemma sf_rd_header_reread_eq : forall fend o hdr lpl disk log h',
+  fm_tag hdr = JLS_TAG_INVALID -> o < fend -> wm_disk_get disk o = Some h' ->
+  wm_raw_rd_header (wm_mk_raw o fend o hdr lpl disk log false) = wm_mk_raw (o + 32) fend o h' lpl disk log false.
+Proof.
+  intros fend o hdr lpl disk log h' Htag Hlt Hget.
+  unfold wm_raw_rd_header, wm_hdr_valid, wm_mk_raw.
+  cbn [wm_fpos wm_fend wm_offset wm_hdr wm_last_pl wm_disk wm_rlog wm_fault].
+  rewrite Htag, (N.eqb_refl JLS_TAG_INVALID). cbn [negb].
+  assert (Hfe : (fend <=? o) = false) by (apply N.leb_gt; exact Hlt). rewrite Hfe, (N.eqb_refl o).
+  unfold wm_set_offset, wm_set_fpos, wm_set_hdr.
+  cbn [wm_fpos wm_fend wm_offset wm_hdr wm_last_pl wm_disk wm_rlog wm_fault]. rewrite Hget.
+  reflexivity.
+Qed.
+
 Lemma sf_wr_payload_reread_eq : forall fend o hdr lpl disk log h' payload n,
   fm_tag hdr = JLS_TAG_INVALID -> o < fend -> wm_disk_get disk o = Some h' -> n <> 0 ->
   fm_payload_length h' <= N.of_nat (length payload) ->
@@ -174,13 +188,8 @@ Lemma sf_wr_payload_reread_eq : forall fend o hdr lpl disk log h' payload n,
     wm_mk_raw fpos' fend' o h' lpl' disk log' false /\ fpos' <= fend' /\ fend <= fend'.
 Proof.
   intros fend o hdr lpl disk log h' payload n Htag Hlt Hget Hn Hlen.
-  unfold wm_raw_wr_payload, wm_raw_rd_header, wm_hdr_valid, wm_mk_raw.
-  cbn [wm_fpos wm_fend wm_offset wm_hdr wm_last_pl wm_disk wm_rlog wm_fault].
-  rewrite Htag. cbn [N.eqb negb].
-  assert (Hfe : (fend <=? o) = false) by (apply N.leb_gt; exact Hlt). rewrite Hfe, (N.eqb_refl o).
-  unfold wm_set_offset, wm_set_fpos, wm_set_hdr.
-  cbn [wm_fpos wm_fend wm_offset wm_hdr wm_last_pl wm_disk wm_rlog wm_fault]. rewrite Hget.
-  cbn [wm_fpos wm_fend wm_offset wm_hdr wm_last_pl wm_disk wm_rlog wm_fault].
+  unfold wm_raw_wr_payload. rewrite (sf_rd_header_reread_eq fend o hdr lpl disk log h' Htag Hlt Hget).
+  unfold wm_mk_raw. cbn [wm_fpos wm_fend wm_offset wm_hdr wm_last_pl wm_disk wm_rlog wm_fault].
   apply N.eqb_neq in Hn. rewrite Hn.
   assert (Hno : (N.of_nat (length payload) <? fm_payload_length h') = false) by (apply N.ltb_ge; exact Hlen). rewrite Hno.
   unfold wm_bk_fwrite. cbn [wm_fpos wm_fend wm_offset wm_hdr wm_last_pl wm_disk wm_rlog wm_fault].
@@ -202,20 +211,301 @@ Lemma sf_tbl_rewrite : forall r ho hh payload,
   sf_raw_ok r' /\ wm_disk r' = wm_disk r /\ wm_offset r' = wm_offset r.
 Proof.
   intros r ho hh payload Hok Hin Hpl Hlen.
-  pose proof (sf_raw_ok_mk r Hok) as Hr.
   destruct Hok as (Hflt & Hoff & Hpe & Hnz & Hlt & Hcons).
   destruct (Hlt _ _ Hin) as [Hho0 Hho].
   destruct (sf_disk_get_in _ _ _ Hin) as (h' & Hget & Hin').
   assert (Hpl' : fm_payload_length h' = 128).
   { transitivity (sf_plen hh); [eapply Hcons; eassumption | exact Hpl]. }
-  unfold wm_raw_chunk_tell. rewrite Hoff in *.
-  set (fpos := wm_fpos r) in *. set (fend := wm_fend r) in *. set (disk := wm_disk r) in *.
-  cbv zeta. rewrite Hr at 1. rewrite sf_seek_eq by exact Hho0.
-  destruct (sf_wr_payload_reread_eq fend ho (wm_hdr_set_tag (wm_hdr r) JLS_TAG_INVALID) (wm_last_pl r) disk (wm_rlog r) h' payload SIZEOF_track_head)
+  destruct r as [fpos fend off hdr lpl disk log flt].
+  cbn [wm_fault wm_offset wm_fpos wm_fend wm_disk] in *. subst flt off.
+  unfold wm_raw_chunk_tell. cbn [wm_offset].
+  change {| wm_fpos := fpos; wm_fend := fend; wm_offset := fpos; wm_hdr := hdr; wm_last_pl := lpl; wm_disk := disk; wm_rlog := log; wm_fault := false |}
+    with (wm_mk_raw fpos fend fpos hdr lpl disk log false).
+  rewrite sf_seek_eq by exact Hho0.
+  destruct (sf_wr_payload_reread_eq fend ho (wm_hdr_set_tag hdr JLS_TAG_INVALID) lpl disk log h' payload SIZEOF_track_head)
     as (fpos' & fend' & lpl' & log' & Heq & Hle1 & Hle2); try assumption; try reflexivity; try lia; try discriminate.
   { rewrite Hpl'. exact Hlen. }
-  rewrite Heq, sf_seek_eq by exact Hnz.
+  rewrite Heq, sf_seek_eq by exact Hnz. cbv zeta.
   split; [|split; reflexivity].
   unfold sf_raw_ok, wm_mk_raw. cbn [wm_fpos wm_fend wm_offset wm_hdr wm_last_pl wm_disk wm_rlog wm_fault].
   split; [reflexivity|]. split; [reflexivity|]. split; [lia|]. split; [exact Hnz|]. split; assumption.
+Qed.
+
+(* ================================================================ core.c / track.c *)
+Definition sf_bdisk (b : wm_base) := wm_disk (wm_b_raw b).
+Definition sf_base_ok (b : wm_base) : Prop :=
+  sf_raw_ok (wm_b_raw b) /\ sf_ck (sf_bdisk b) (wm_b_source_head b) /\ sf_ck (sf_bdisk b) (wm_b_signal_head b) /\
+  sf_ck (sf_bdisk b) (wm_b_ud_head b).
+Definition sf_bext (b b' : wm_base) : Prop := incl (sf_bdisk b) (sf_bdisk b').
+
+Definition sf_tk (d : list (N * fm_chunk_header)) (t : wm_track) : Prop :=
+  sf_ck d (wm_tk_head t) /\ (wm_ck_offset (wm_tk_head t) <> 0 -> sf_plen (wm_ck_hdr (wm_tk_head t)) = SIZEOF_track_head) /\
+  sf_ck d (wm_tk_data_head t) /\ Forall (sf_ck d) (wm_tk_index_head t) /\ Forall (sf_ck d) (wm_tk_summary_head t) /\
+  length (wm_tk_offsets t) = 16%nat.
+
+Lemma sf_bext_refl : forall b, sf_bext b b.
+Proof. intro b. apply incl_refl. Qed.
+Lemma sf_bext_trans : forall a b c, sf_bext a b -> sf_bext b c -> sf_bext a c.
+Proof. intros a b c H1 H2. eapply incl_tran; eassumption. Qed.
+
+Lemma sf_tk_incl : forall d d' t, incl d d' -> sf_tk d t -> sf_tk d' t.
+Proof.
+  intros d d' t Hi (H1 & H2 & H3 & H4 & H5 & H6).
+  split; [eapply sf_ck_incl; eassumption|]. split; [exact H2|]. split; [eapply sf_ck_incl; eassumption|].
+  split; [eapply Forall_impl; [|exact H4]; intros c Hc; eapply sf_ck_incl; eassumption|].
+  split; [eapply Forall_impl; [|exact H5]; intros c Hc; eapply sf_ck_incl; eassumption|]. exact H6.
+Qed.
+
+Lemma sf_tk0 : forall d ty, sf_tk d (wm_track0 ty).
+Proof.
+  intros d ty. unfold sf_tk, wm_track0. cbn [wm_tk_head wm_tk_data_head wm_tk_index_head wm_tk_summary_head wm_tk_offsets].
+  split; [apply sf_ck0|]. split; [intro H; now elim H|]. split; [apply sf_ck0|].
+  split; [apply Forall_forall; intros c Hc; apply repeat_spec in Hc; subst; apply sf_ck0|].
+  split; [apply Forall_forall; intros c Hc; apply repeat_spec in Hc; subst; apply sf_ck0|]. reflexivity.
+Qed.
+
+Lemma sf_upd_length : forall (A : Type) n (x : A) l, length (wm_upd n x l) = length l.
+Proof. intros A n x l. revert n. induction l as [|y l IH]; intros [|n]; cbn; auto. Qed.
+Lemma sf_Forall_upd : forall (A : Type) (P : A -> Prop) n x l, Forall P l -> P x -> Forall P (wm_upd n x l).
+Proof.
+  intros A P n x l Hl Hx. revert n. induction Hl as [|y l Hy Hl IH]; intros [|n]; cbn; auto.
+Qed.
+Lemma sf_Forall_get : forall d l level, Forall (sf_ck d) l -> sf_ck d (wm_get_chunk l level).
+Proof.
+  intros d l level Hl. unfold wm_get_chunk.
+  destruct (nth_in_or_default (N.to_nat level) l wm_chunk0) as [Hin|Heq].
+  - rewrite Forall_forall in Hl. now apply Hl.
+  - rewrite Heq. apply sf_ck0.
+Qed.
+
+Lemma sf_mk_hdr_tag : forall prev tag meta plen, fm_tag (wm_mk_hdr prev tag meta plen) = tag.
+Proof. reflexivity. Qed.
+Lemma sf_mk_hdr_plen : forall prev tag meta plen, sf_plen (wm_mk_hdr prev tag meta plen) = plen.
+Proof. reflexivity. Qed.
+
+Lemma sf_track_tag_nz : forall ty k, fm_track_tag ty k <> JLS_TAG_INVALID.
+Proof.
+  intros ty k H. unfold fm_track_tag, JLS_TAG_INVALID in H. apply N.lor_eq_0_l in H. discriminate H.
+Qed.
+
+(* a chunk appended and linked into one of the lists *)
+Lemma sf_append_link : forall r head prev tag meta plen payload r1 h1 r2 c,
+  sf_raw_ok r -> sf_ck (wm_disk r) head -> tag <> JLS_TAG_INVALID -> plen <= N.of_nat (length payload) ->
+  wm_raw_wr r (wm_mk_hdr prev tag meta plen) payload = (r1, h1) ->
+  wm_update_item_head r1 head {| wm_ck_offset := wm_raw_chunk_tell r; wm_ck_hdr := h1 |} = (r2, c) ->
+  sf_raw_ok r2 /\ sf_ext r r2 /\ sf_ck (wm_disk r2) c /\ wm_ck_offset c = wm_offset r /\ wm_ck_offset c <> 0 /\
+  sf_plen (wm_ck_hdr c) = plen /\ wm_offset r < wm_offset r2 /\
+  c = {| wm_ck_offset := wm_raw_chunk_tell r; wm_ck_hdr := h1 |}.
+Proof.
+  intros r head prev tag meta plen payload r1 h1 r2 c Hok Hck Htag Hlen Hw Hu.
+  destruct (sf_raw_wr r (wm_mk_hdr prev tag meta plen) payload r1 h1 Hok Htag Hlen Hw) as (Hok1 & Hext1 & Hin1 & Hpl1 & Hlt1).
+  destruct (sf_update_item_head r1 head _ r2 c Hok1 (sf_ck_incl _ _ _ Hext1 Hck) Hu) as (Hok2 & Hext2 & Hc & Hoff2).
+  subst c. unfold wm_raw_chunk_tell. cbn [wm_ck_offset wm_ck_hdr].
+  split; [exact Hok2|]. split; [eapply sf_ext_trans; eassumption|].
+  split; [right; cbn [wm_ck_offset wm_ck_hdr]; apply Hext2; exact Hin1|].
+  split; [reflexivity|]. split; [apply Hok|]. split; [rewrite Hpl1; reflexivity|]. split; [rewrite Hoff2; exact Hlt1 | reflexivity].
+Qed.
+
+Lemma sf_base_set_raw : forall b r, sf_base_ok b -> sf_raw_ok r -> incl (sf_bdisk b) (wm_disk r) ->
+  sf_base_ok (wm_b_set_raw b r).
+Proof.
+  intros b r (H0 & H1 & H2 & H3) Hr Hi. unfold sf_base_ok, sf_bdisk in *. cbn [wm_b_set_raw wm_b_raw wm_b_source_head wm_b_signal_head wm_b_ud_head].
+  split; [exact Hr|]. split; [eapply sf_ck_incl; eassumption|]. split; eapply sf_ck_incl; eassumption.
+Qed.
+
+(* jls_track_wr_def *)
+Lemma sf_track_wr_def : forall b sid ty, sf_base_ok b ->
+  sf_base_ok (wm_track_wr_def b sid ty) /\ sf_bext b (wm_track_wr_def b sid ty).
+Proof.
+  intros b sid ty Hb. pose proof Hb as (Hr & Hs & Hg & Hu). unfold wm_track_wr_def.
+  destruct (wm_raw_wr (wm_b_raw b) _ []) as [r1 h1] eqn:Ew.
+  destruct (wm_update_item_head r1 (wm_b_signal_head b) _) as [r2 sh] eqn:Eu.
+  destruct (sf_append_link _ _ _ _ _ _ _ _ _ _ _ Hr Hg (sf_track_tag_nz _ _) (N.le_0_l _) Ew Eu) as (Hok2 & Hext & Hck & _).
+  split.
+  - pose proof (sf_base_set_raw b r2 Hb Hok2 Hext) as (K0 & K1 & K2 & K3).
+    unfold sf_base_ok, sf_bdisk in *. cbn [wm_b_set_signal_head wm_b_set_raw wm_b_raw wm_b_source_head wm_b_signal_head wm_b_ud_head] in *.
+    split; [exact K0|]. split; [exact K1|]. split; [exact Hck | exact K3].
+  - unfold sf_bext, sf_bdisk. cbn. exact Hext.
+Qed.
+
+Lemma sf_head_payload_length : forall l, length l = 16%nat -> N.of_nat (length (wm_head_payload l)) = SIZEOF_track_head.
+Proof.
+  intros l H. unfold wm_head_payload.
+  assert (Hg : forall l, length (flat_map fm_enc_u64 l) = (8 * length l)%nat).
+  { induction l0 as [|x l0 IH]; [reflexivity|]. cbn [flat_map]. rewrite app_length, IH. unfold fm_enc_u64. rewrite fm_enc_length. cbn [length]. lia. }
+  rewrite Hg, H. reflexivity.
+Qed.
+
+(* jls_track_wr_head *)
+Lemma sf_track_wr_head : forall b sid t b' t', sf_base_ok b -> sf_tk (sf_bdisk b) t ->
+  wm_track_wr_head b sid t = (b', t') ->
+  sf_base_ok b' /\ sf_bext b b' /\ sf_tk (sf_bdisk b') t' /\ wm_tk_offsets t' = wm_tk_offsets t /\
+  wm_offset (wm_b_raw b) <= wm_offset (wm_b_raw b').
+Proof.
+  intros b sid t b' t' Hb Ht H. pose proof Hb as (Hr & Hs & Hg & Hu).
+  pose proof Ht as (T1 & T2 & T3 & T4 & T5 & T6).
+  unfold wm_track_wr_head in H.
+  destruct (wm_ck_offset (wm_tk_head t) =? 0) eqn:E0.
+  - destruct (wm_raw_wr (wm_b_raw b) _ (wm_head_payload (wm_tk_offsets t))) as [r1 h1] eqn:Ew.
+    destruct (wm_update_item_head r1 (wm_b_signal_head b) _) as [r2 sh] eqn:Eu.
+    inversion H; subst b' t'; clear H.
+    assert (Hlen : SIZEOF_track_head <= N.of_nat (length (wm_head_payload (wm_tk_offsets t)))).
+    { rewrite sf_head_payload_length by exact T6. apply N.le_refl. }
+    destruct (sf_append_link _ _ _ _ _ _ _ _ _ _ _ Hr Hg (sf_track_tag_nz _ _) Hlen Ew Eu) as (Hok2 & Hext & Hck & Hoff & Hnz & Hpl & Hlt2 & Hsh).
+    pose proof (sf_base_set_raw b r2 Hb Hok2 Hext) as (K0 & K1 & K2 & K3). rewrite <- Hsh.
+    split; [|split; [|split; [|split]]].
+    + unfold sf_base_ok, sf_bdisk in *. cbn [wm_b_set_signal_head wm_b_set_raw wm_b_raw wm_b_source_head wm_b_signal_head wm_b_ud_head] in *.
+      split; [exact K0|]. split; [exact K1|]. split; [exact Hck | exact K3].
+    + unfold sf_bext, sf_bdisk. cbn. exact Hext.
+    + unfold sf_bdisk. cbn [wm_b_set_signal_head wm_b_set_raw wm_b_raw].
+      pose proof (sf_tk_incl _ _ _ Hext Ht) as (U1 & U2 & U3 & U4 & U5 & U6).
+      unfold sf_tk. cbn [wm_tk_set_head wm_tk_head wm_tk_data_head wm_tk_index_head wm_tk_summary_head wm_tk_offsets].
+      split; [exact Hck|]. split; [intros _; exact Hpl|]. split; [exact U3|]. split; [exact U4|]. split; [exact U5 | exact U6].
+    + reflexivity.
+    + cbn [wm_b_set_signal_head wm_b_set_raw wm_b_raw]. lia.
+  - apply N.eqb_neq in E0. inversion H; subst b' t'; clear H.
+    destruct T1 as [Hz|Hin]; [congruence|].
+    assert (Hlen : SIZEOF_track_head <= N.of_nat (length (wm_head_payload (wm_tk_offsets t)))).
+    { rewrite sf_head_payload_length by exact T6. apply N.le_refl. }
+    destruct (sf_tbl_rewrite (wm_b_raw b) _ _ (wm_head_payload (wm_tk_offsets t)) Hr Hin (T2 E0) Hlen) as (Hok' & Hd' & Ho').
+    split; [|split; [|split; [|split]]].
+    + apply sf_base_set_raw; [exact Hb | exact Hok' |]. unfold sf_bdisk. rewrite Hd'. apply incl_refl.
+    + unfold sf_bext, sf_bdisk. cbn [wm_b_set_raw wm_b_raw]. rewrite Hd'. apply incl_refl.
+    + unfold sf_bdisk. cbn [wm_b_set_raw wm_b_raw]. rewrite Hd'. exact Ht.
+    + reflexivity.
+    + cbn [wm_b_set_raw wm_b_raw]. rewrite Ho'. apply N.le_refl.
+Qed.
+
+Lemma sf_get_off_upd_other : forall l n m v, n <> m -> wm_get_off (wm_upd (N.to_nat n) v l) m = wm_get_off l m.
+Proof.
+  intros l n m v H. unfold wm_get_off.
+  assert (Hnm : N.to_nat n <> N.to_nat m) by lia.
+  generalize dependent (N.to_nat m). generalize (N.to_nat n). clear.
+  induction l as [|y l IH]; intros a b Hab; [destruct a; reflexivity|].
+  destruct a as [|a]; destruct b as [|b]; cbn; try reflexivity; try congruence.
+  apply IH. congruence.
+Qed.
+
+(* jls_track_update *)
+Lemma sf_track_update : forall b sid t level pos b' t', sf_base_ok b -> sf_tk (sf_bdisk b) t ->
+  wm_track_update b sid t level pos = (b', t') ->
+  sf_base_ok b' /\ sf_bext b b' /\ sf_tk (sf_bdisk b') t' /\
+  (forall m, m <> level -> wm_get_off (wm_tk_offsets t') m = wm_get_off (wm_tk_offsets t) m) /\
+  wm_offset (wm_b_raw b) <= wm_offset (wm_b_raw b').
+Proof.
+  intros b sid t level pos b' t' Hb Ht H. unfold wm_track_update in H.
+  destruct (wm_get_off (wm_tk_offsets t) level =? 0).
+  - assert (Ht1 : sf_tk (sf_bdisk b) (wm_tk_set_offsets t (wm_upd (N.to_nat level) pos (wm_tk_offsets t)))).
+    { destruct Ht as (T1 & T2 & T3 & T4 & T5 & T6). unfold sf_tk.
+      cbn [wm_tk_set_offsets wm_tk_head wm_tk_data_head wm_tk_index_head wm_tk_summary_head wm_tk_offsets].
+      do 5 (split; [assumption|]). rewrite sf_upd_length. exact T6. }
+    destruct (sf_track_wr_head _ _ _ _ _ Hb Ht1 H) as (K1 & K2 & K3 & K4 & K5).
+    do 3 (split; [assumption|]). split; [|exact K5].
+    intros m Hm. rewrite K4. cbn [wm_tk_set_offsets wm_tk_offsets]. apply sf_get_off_upd_other. congruence.
+  - inversion H; subst. split; [exact Hb|]. split; [apply sf_bext_refl|]. split; [exact Ht|]. split; [reflexivity | apply N.le_refl].
+Qed.
+
+(* the common part of jls_core_wr_data / _index / _summary: append + link on a list head of the track *)
+Lemma sf_core_append : forall b head prev tag meta plen payload r1 h1 r2 c,
+  sf_base_ok b -> sf_ck (sf_bdisk b) head -> tag <> JLS_TAG_INVALID -> plen <= N.of_nat (length payload) ->
+  wm_raw_wr (wm_b_raw b) (wm_mk_hdr prev tag meta plen) payload = (r1, h1) ->
+  wm_update_item_head r1 head {| wm_ck_offset := wm_raw_chunk_tell (wm_b_raw b); wm_ck_hdr := h1 |} = (r2, c) ->
+  sf_base_ok (wm_b_set_raw b r2) /\ sf_bext b (wm_b_set_raw b r2) /\ sf_ck (wm_disk r2) c /\
+  wm_offset (wm_b_raw b) < wm_offset r2.
+Proof.
+  intros b head prev tag meta plen payload r1 h1 r2 c Hb Hck Htag Hlen Hw Hu.
+  destruct (sf_append_link _ _ _ _ _ _ _ _ _ _ _ (proj1 Hb) Hck Htag Hlen Hw Hu) as (Hok2 & Hext & Hc & _ & _ & _ & Hlt & _).
+  split; [apply sf_base_set_raw; assumption|]. split; [exact Hext|]. split; [exact Hc | exact Hlt].
+Qed.
+
+(* jls_core_wr_data *)
+Lemma sf_core_wr_data : forall b sid t payload plen b' t', sf_base_ok b -> sf_tk (sf_bdisk b) t ->
+  plen <= N.of_nat (length payload) ->
+  wm_core_wr_data b sid t payload plen = (b', t') ->
+  sf_base_ok b' /\ sf_bext b b' /\ sf_tk (sf_bdisk b') t' /\
+  (forall m, m <> 0 -> wm_get_off (wm_tk_offsets t') m = wm_get_off (wm_tk_offsets t) m) /\
+  wm_offset (wm_b_raw b) < wm_offset (wm_b_raw b').
+Proof.
+  intros b sid t payload plen b' t' Hb Ht Hlen H. unfold wm_core_wr_data in H.
+  destruct (wm_raw_wr (wm_b_raw b) _ payload) as [r1 h1] eqn:Ew.
+  destruct (wm_update_item_head r1 (wm_tk_data_head t) _) as [r2 dh] eqn:Eu.
+  pose proof Ht as (T1 & T2 & T3 & T4 & T5 & T6).
+  destruct (sf_core_append _ _ _ _ _ _ _ _ _ _ _ Hb T3 (sf_track_tag_nz _ _) Hlen Ew Eu) as (Hb2 & Hext & Hc & Hlt).
+  pose proof (sf_tk_incl _ _ _ Hext Ht) as (U1 & U2 & U3 & U4 & U5 & U6).
+  assert (Ht1 : sf_tk (sf_bdisk (wm_b_set_raw b r2)) (wm_tk_set_data_head t dh)).
+  { unfold sf_tk, sf_bdisk. cbn [wm_b_set_raw wm_b_raw wm_tk_set_data_head wm_tk_head wm_tk_data_head wm_tk_index_head wm_tk_summary_head wm_tk_offsets].
+    split; [exact U1|]. split; [exact U2|]. split; [exact Hc|]. split; [exact U4|]. split; [exact U5 | exact U6]. }
+  cbn [wm_tk_set_data_head wm_tk_offsets] in H.
+  destruct (wm_get_off (wm_tk_offsets t) 0 =? 0).
+  - set (t2 := wm_tk_set_offsets (wm_tk_set_data_head t dh) (wm_upd 0 (wm_raw_chunk_tell (wm_b_raw b)) (wm_tk_offsets t))) in H.
+    assert (Ht2 : sf_tk (sf_bdisk (wm_b_set_raw b r2)) t2).
+    { destruct Ht1 as (V1 & V2 & V3 & V4 & V5 & V6). unfold sf_tk, t2.
+      cbn [wm_tk_set_offsets wm_tk_set_data_head wm_tk_head wm_tk_data_head wm_tk_index_head wm_tk_summary_head wm_tk_offsets] in *.
+      do 5 (split; [assumption|]). rewrite sf_upd_length. exact T6. }
+    destruct (sf_track_wr_head _ _ _ _ _ Hb2 Ht2 H) as (K1 & K2 & K3 & K4 & K5).
+    split; [exact K1|]. split; [eapply sf_bext_trans; eassumption|]. split; [exact K3|]. split.
+    + intros m Hm. rewrite K4. unfold t2. cbn [wm_tk_set_offsets wm_tk_offsets].
+      change 0%nat with (N.to_nat 0). apply sf_get_off_upd_other. congruence.
+    + cbn [wm_b_set_raw wm_b_raw] in K5. lia.
+  - inversion H; subst b' t'. split; [exact Hb2|]. split; [exact Hext|]. split; [exact Ht1|]. split; [reflexivity | exact Hlt].
+Qed.
+
+(* jls_core_wr_summary *)
+Lemma sf_core_wr_summary : forall b sid t level payload plen b' t', sf_base_ok b -> sf_tk (sf_bdisk b) t ->
+  plen <= N.of_nat (length payload) ->
+  wm_core_wr_summary b sid t level payload plen = (b', t') ->
+  sf_base_ok b' /\ sf_bext b b' /\ sf_tk (sf_bdisk b') t' /\ wm_tk_offsets t' = wm_tk_offsets t /\
+  wm_offset (wm_b_raw b) < wm_offset (wm_b_raw b').
+Proof.
+  intros b sid t level payload plen b' t' Hb Ht Hlen H. unfold wm_core_wr_summary in H.
+  destruct (wm_raw_wr (wm_b_raw b) _ payload) as [r1 h1] eqn:Ew.
+  destruct (wm_update_item_head r1 (wm_get_chunk (wm_tk_summary_head t) level) _) as [r2 nh] eqn:Eu.
+  pose proof Ht as (T1 & T2 & T3 & T4 & T5 & T6).
+  destruct (sf_core_append _ _ _ _ _ _ _ _ _ _ _ Hb (sf_Forall_get _ _ level T5) (sf_track_tag_nz _ _) Hlen Ew Eu) as (Hb2 & Hext & Hc & Hlt).
+  pose proof (sf_tk_incl _ _ _ Hext Ht) as (U1 & U2 & U3 & U4 & U5 & U6).
+  inversion H; subst b' t'; clear H.
+  split; [exact Hb2|]. split; [exact Hext|]. split; [|split; [reflexivity | exact Hlt]].
+  unfold sf_tk, sf_bdisk. cbn [wm_b_set_raw wm_b_raw wm_tk_set_summary_head wm_tk_head wm_tk_data_head wm_tk_index_head wm_tk_summary_head wm_tk_offsets].
+  do 4 (split; [assumption|]). split; [apply sf_Forall_upd; assumption | exact U6].
+Qed.
+
+(* jls_core_wr_index *)
+Lemma sf_core_wr_index : forall b sid t level payload plen b' t', sf_base_ok b -> sf_tk (sf_bdisk b) t ->
+  plen <= N.of_nat (length payload) ->
+  wm_core_wr_index b sid t level payload plen = (b', t') ->
+  sf_base_ok b' /\ sf_bext b b' /\ sf_tk (sf_bdisk b') t' /\
+  (forall m, m <> level -> wm_get_off (wm_tk_offsets t') m = wm_get_off (wm_tk_offsets t) m) /\
+  wm_offset (wm_b_raw b) < wm_offset (wm_b_raw b').
+Proof.
+  intros b sid t level payload plen b' t' Hb Ht Hlen H. unfold wm_core_wr_index in H.
+  destruct (wm_raw_wr (wm_b_raw b) _ payload) as [r1 h1] eqn:Ew.
+  destruct (wm_update_item_head r1 (wm_get_chunk (wm_tk_index_head t) level) _) as [r2 nh] eqn:Eu.
+  pose proof Ht as (T1 & T2 & T3 & T4 & T5 & T6).
+  destruct (sf_core_append _ _ _ _ _ _ _ _ _ _ _ Hb (sf_Forall_get _ _ level T4) (sf_track_tag_nz _ _) Hlen Ew Eu) as (Hb2 & Hext & Hc & Hlt).
+  pose proof (sf_tk_incl _ _ _ Hext Ht) as (U1 & U2 & U3 & U4 & U5 & U6).
+  assert (Ht1 : sf_tk (sf_bdisk (wm_b_set_raw b r2)) (wm_tk_set_index_head t (wm_upd (N.to_nat level) nh (wm_tk_index_head t)))).
+  { unfold sf_tk, sf_bdisk. cbn [wm_b_set_raw wm_b_raw wm_tk_set_index_head wm_tk_head wm_tk_data_head wm_tk_index_head wm_tk_summary_head wm_tk_offsets].
+    do 3 (split; [assumption|]). split; [apply sf_Forall_upd; assumption|]. split; [exact U5 | exact U6]. }
+  destruct (sf_track_update _ _ _ _ _ _ _ Hb2 Ht1 H) as (K1 & K2 & K3 & K4 & K5).
+  split; [exact K1|]. split; [eapply sf_bext_trans; eassumption|]. split; [exact K3|]. split; [exact K4|].
+  cbn [wm_b_set_raw wm_b_raw] in K5. lia.
+Qed.
+
+(* jls_core_wr_end *)
+Lemma sf_core_wr_end : forall b, sf_base_ok b -> sf_base_ok (wm_core_wr_end b) /\ sf_bext b (wm_core_wr_end b).
+Proof.
+  intros b Hb. unfold wm_core_wr_end.
+  destruct (wm_raw_wr (wm_b_raw b) (wm_mk_hdr 0 JLS_TAG_END 0 0) []) as [r1 h1] eqn:Ew.
+  assert (Htag : fm_tag (wm_mk_hdr 0 JLS_TAG_END 0 0) <> JLS_TAG_INVALID) by discriminate.
+  destruct (sf_raw_wr _ _ _ _ _ (proj1 Hb) Htag (N.le_0_l _) Ew) as (Hok1 & Hext1 & _).
+  split; [apply sf_base_set_raw; assumption | exact Hext1].
+Qed.
+
+(* jls_raw_flush / jls_raw_close keep everything but the log and the position *)
+Lemma sf_raw_flush_fault : forall r, wm_fault (wm_raw_flush r) = wm_fault r.
+Proof. reflexivity. Qed.
+Lemma sf_raw_close_fault : forall r, wm_fault (wm_raw_close r) = wm_fault r.
+Proof.
+  intro r. unfold wm_raw_close, wm_wr_file_header.
+  destruct (wm_fpos r =? 0); reflexivity.
 Qed.
